@@ -170,6 +170,26 @@ func (r *Run) collect(sweeps []Sweep) {
 			r.notes[n] = true
 		}
 	}
+	// 3b. opaque predicates: the declared reads footprint must cover every heap family the body reads
+	pkgsSeen := map[string]bool{}
+	for _, u := range r.units {
+		pkgsSeen[fnPkgPath(u.fn)] = true
+	}
+	for _, key := range sortedKeys(e.contracts.Pures) {
+		pf := e.contracts.Pures[key]
+		if !pf.Opaque || !pkgsSeen[pf.PkgPath] {
+			continue
+		}
+		if missing, err := e.checkReads(pf); err != nil {
+			r.addSynthetic(key+"#reads", "frame", "opaque predicate's reads clause can be evaluated", err.Error())
+		} else if len(missing) > 0 {
+			r.addSynthetic(key+"#reads", "frame", "opaque predicate's reads clause covers every heap family its body reads", "not covered: "+strings.Join(missing, ", "))
+		} else {
+			o := &Oblig{ID: key + "#reads", Kind: "frame", Func: "pred " + key, Props: []string{r.prop}, Desc: "opaque predicate's reads clause covers every heap family its body reads",
+				Reach: tTrue, Goal: tTrue, Verdict: "unsat", Solver: "syntactic"}
+			r.synth = append(r.synth, o)
+		}
+	}
 	// 4. lemmas
 	for _, lm := range e.contracts.Lemmas {
 		if !hasProp(lm.Props, r.prop) {
@@ -200,6 +220,46 @@ func (r *Run) collect(sweeps []Sweep) {
 		}()
 	}
 	r.genSecs = time.Since(t0).Seconds()
+}
+
+// checkReads evaluates an opaque predicate transparently on symbolic arguments and compares the heap families
+// occurring in the result with the families of its declared reads clause.
+func (e *Engine) checkReads(pf *PureFunc) (missing []string, err error) {
+	defer func() {
+		if r := recover(); r != nil {
+			err = fmt.Errorf("%v", r)
+		}
+	}()
+	vc := e.newVC(nil, nil)
+	st := &State{heap: map[string]*Term{}, locals: map[*ssa.Alloc]Val{}, reach: tTrue}
+	vc.entry = st
+	env := vc.newEnv(e.typesPkg(pf.PkgPath), st, st)
+	if pf.RecvType != nil {
+		rt := env.resolveType(pf.RecvType)
+		env.vars[pf.RecvName] = TV{vc.havocVal(st, rt, "recv"), rt}
+	}
+	for _, p := range pf.Params {
+		pt := env.resolveType(p.Type)
+		env.vars[p.Name] = TV{vc.havocVal(st, pt, "p$"+p.Name), pt}
+	}
+	body := env.scalar(env.eval(pf.Body))
+	declared := map[string]bool{}
+	for _, t := range env.modTargets(pf.Reads) {
+		declared[t.key] = true
+	}
+	vars := map[string]*Sort{}
+	collectSyms(body, vars, map[string]*Term{}, map[string]bool{})
+	for _, v := range sortedKeys(vars) {
+		if !strings.HasPrefix(v, "H$") {
+			continue
+		}
+		k := strings.SplitN(v[2:], "!", 2)[0]
+		if k == allocKey || declared[k] {
+			continue
+		}
+		missing = append(missing, k)
+	}
+	return missing, nil
 }
 
 func containsStr(xs []string, s string) bool {
